@@ -46,6 +46,9 @@ EXPLANATION = (
     "subtract-the-median and min(max(x,y), w-x+y, x+h-y, max(w-x,h-y)); "
     "shortest_torus_path's four (length, vector) candidates have those same "
     "lengths and the matching vectors.")
+EXPLANATION += (
+    " R5: name-based axis roles at every call site of a geometry function "
+    "in the package (width/height, x/y, root_x/root_y).")
 NOT_DECIDED = [
     "that the closed forms equal graph distance in the hexagonal mesh / "
     "torus for all sizes (a mathematical fact about the formula; needs a "
